@@ -176,6 +176,11 @@ func exec(s *Scenario, guard bool) (ms []core.Mismatch) {
 			}
 		}
 	}
+	if s.Space == "tri" { // deterministic space: known findings are recorded per input
+		for i := range ms {
+			ms[i].Key = ms[i].Signature + "|" + s.P.SVG() + "|" + s.Q.SVG() + "|" + s.Emb.Name
+		}
+	}
 	return
 }
 
@@ -320,7 +325,7 @@ func (d Driver) Run(c *core.Ctx) error {
 		r.runGen("two", tlc.Opts{Module: "BoolOps", Config: cfg(3, 4, 2, "random", 120, "bool", false), Seed: c.Seed + 1, Timeout: 30 * time.Minute})
 		r.runGen("hex", tlc.Opts{Module: "BoolOps", Config: cfg(6, 6, 1, "random", 250, "bool", false), Seed: c.Seed + 2, Timeout: 30 * time.Minute})
 	} else {
-		r.runGen("tri", tlc.Opts{Module: "BoolOps", Config: cfg(2, 3, 1, "random", 240, "bool", false), Seed: c.Seed})       // 57 600 pairs of <=3-point contours on 3x3
+		r.runGen("tri", tlc.Opts{Module: "BoolOps", Config: cfg(2, 3, 1, "random", 240, "bool", false), Seed: 7777})         // a fixed 57 600-pair sample of the tri space (deterministic: known findings per input)
 		r.runGen("pent", tlc.Opts{Module: "BoolOps", Config: cfg(4, 5, 1, "random", 130, "bool", false), Seed: c.Seed + 1}) // 16 900 pentagon pairs on 5x5
 		r.runGen("two", tlc.Opts{Module: "BoolOps", Config: cfg(3, 4, 2, "random", 40, "bool", false), Seed: c.Seed + 2})   // two contours per operand
 	}
